@@ -95,6 +95,11 @@ class C07Gen:
                 self.free_left -= 1
                 return self.free.next()
             self.phase = "clone"
+            if self.cfg.get("policy_flip_before_clone"):
+                # the process-wide default policy is switched just before the copy is made: the copy has to keep the
+                # policy its source was built under, not the one that happens to be current
+                from simkit.world import World
+                return {"op": "policy", "v": "EDIF" if World.policy() != "EDIF" else "DEFAULT"}
         if self.phase == "clone":
             self.phase = "second"
             if self.cfg["mode"] == "hier" and r.random() < 0.8:
@@ -177,6 +182,8 @@ class C07(Prop):
             cfg["unnamed"] = rng.choice([0.0, 0.3, 1.0])
             cfg["child_props"] = True
             cfg["late_permute"] = rng.choice([0.0, 0.0, 0.4])
+            cfg["ident_rate"] = rng.choice([0.0, 0.0, 0.5])      # identifiers, some differing from a sibling's in case only
+            cfg["unique_idents"] = False
             cfg["hostility"] = 0.05
             cfg["names"] = "plain"
             cfg["name_rate"] = 0.5
@@ -194,6 +201,7 @@ class C07(Prop):
         w2.update({"clone": 0.0, "policy": 0.0, "ns": 0.0, "gc": 0.3})
         cfg["weights2"] = w2
         cfg["second_steps"] = rng.choice([0, 5, 15, 30])
+        cfg["policy_flip_before_clone"] = rng.random() < 0.25
         cfg["lookups_when"] = rng.choice(["at_clone", "at_end"]) if cfg["second_steps"] else "at_clone"
         cfg["steps"] = 10 ** 6
         return cfg
